@@ -1583,6 +1583,23 @@ func checkOrientWhole(c *Ctx, r *Report) {
 		}
 		return out
 	}
+	// every decode hint the library declares except TRY_HARDER (which changes the rows asked for): a filtered copy made for
+	// the reversed attempt must keep each of them, whichever the row decoders happen to read today
+	var allButTH []int64
+	if root != nil {
+		sc := root.Types.Scope()
+		for _, n := range sc.Names() {
+			if cst, ok := sc.Lookup(n).(*types.Const); ok && namedOf(cst.Type()) == "DecodeHintType" {
+				if v, ok := constInt64(cst); ok && v != TH {
+					allButTH = append(allButTH, v)
+				}
+			}
+		}
+	}
+	if len(allButTH) < 8 {
+		r.AnchorLost("S-ORIENTW", "gozxing.DecodeHintType constants", fmt.Sprintf("%d found", len(allButTH)))
+		return
+	}
 	scripts := []dscript{
 		{name: "no hints, nothing decodes", W: 30, H: 64, okRow: -1, wantRows: seq(32, 2, 15, 64), wantErr: "error:NotFound#end"},
 		{name: "TRY_HARDER, nothing decodes", W: 30, H: 20, hints: []int64{TH}, okRow: -1, wantRows: seq(10, 1, 20, 20), wantErr: "error:NotFound#end"},
@@ -1590,6 +1607,7 @@ func checkOrientWhole(c *Ctx, r *Report) {
 		{name: "a row decodes forward", W: 30, H: 64, hints: []int64{PF}, okRow: 30, okRev: false, wantRows: []int64{32, 30}, wantResult: true},
 		{name: "a row decodes reversed", W: 30, H: 64, hints: []int64{PF}, okRow: 30, okRev: true, wantRows: []int64{32, 30}, wantResult: true},
 		{name: "the callback hint", W: 30, H: 64, hints: []int64{CB, PF}, okRow: 34, okRev: true, wantRows: []int64{32, 30, 34}, wantResult: true},
+		{name: "the callback hint among every other hint", W: 30, H: 64, hints: allButTH, okRow: 34, okRev: true, wantRows: []int64{32, 30, 34}, wantResult: true},
 		{name: "a row the binarizer cannot give", W: 30, H: 64, noRow: map[int64]string{32: "error:NotFound#row"}, okRow: 30, okRev: false, wantRows: []int64{32, 30}, wantResult: true},
 		{name: "the binarizer fails otherwise", W: 30, H: 64, noRow: map[int64]string{30: "error:Other#row"}, okRow: -1, wantRows: []int64{32, 30}, wantErr: "error:Other#row"},
 		{name: "the row decoder fails with an error that is no reader exception", W: 30, H: 64, rowErr: map[int64]string{30: "error:Other#dec"}, okRow: -1, wantRows: []int64{32, 30}, wantErr: "error:Other#dec"},
